@@ -560,3 +560,28 @@ UNITS.append(Unit("cmdline.get_commandline_parser", "parser.c", defines=_cem_def
         Call(r"\bcontains_error_mode", "((({0}) & ({1})) == ({1}))", None)])},
     funcs=[PCL + ": pika::detail::get_commandline_parser"], min_obligations=4,
     doc="F: allow_unregistered() iff the base error mode is allow_unregistered, for every combination with report_missing_config_file"))
+
+
+# ---- init_helper (added by main after seeded change C16-5 was missed): which arguments the application's main(argc, argv) sees ----
+IRT = "libs/pika/init_runtime/src/init_runtime.cpp"
+LOOP_INITARGS = ("__CPROVER_assigns(i, argcount, g_cur, g_cur_idx, g_visited, g_expected, g_cur_expect, g_cur_should, g_cur_pushed, g_vexpect, g_vval, g_null_at)\n"
+                 "__CPROVER_loop_invariant(LOOP_INV(i, argcount))")
+UNITS.append(Unit("init.init_helper", "initargs.c", enforce="init_helper", lifts={"body": Lift(IRT,
+    r"int init_helper\(pika::program_options::variables_map&[^,]*,\s*pika::util::detail::function<int\(int, char\*\*\)> const& f\)", rules=[
+        Sub(r"std::string (\w+)\(pika::detail::get_config_entry\(\"pika\.reconstructed_cmd_line\", \"\"\)\);", r"int \1 = get_reconstructed_cmd_line();", 1),
+        Sub(r"\busing namespace pika::program_options;", "", None),
+        Sub(r"std::vector<std::string> (\w+) = split_unix\((\w+)\);", r"struct strvec *\1 = split_unix(\2);", 1),
+        Sub(r"std::vector<char\*> (\w+)\(([^;]+)\);", r"struct argvvec *\1 = argv_make(\2);", 1),
+        Sub(r"\b(\w+)\.size\(\)", r"vec_size(\1)", None),
+        Sub(r"\b(\w+)\[(\w+)\](?=\.| = \1\[)", r"(*args_at(\1, \2))", None),
+        Sub(r"(\(\*args_at\(\w+, \w+\)\)) = (\(\*args_at\(\w+, \w+\)\))\.substr\(([^;]*)\);", r"str_assign_substr(&\1, &\2, \3);", None),
+        Sub(r"(\(\*args_at\(\w+, \w+\)\))\.find\(\"--pika:\"\)", r"str_find_pika(&\1)", None),
+        Sub(r"(\(\*args_at\(\w+, \w+\)\))\.find\(\"positional\", (\w+)\)", r"str_find_positional(&\1, \2)", None),
+        Sub(r"std::string::size_type (\w+) = (\(\*args_at\(\w+, \w+\)\))\.find_first_of\('='\);", r"size_t \1 = str_find_first_of_eq(&\2);", None),
+        Sub(r"const_cast<char\*>\((\(\*args_at\(\w+, \w+\)\))\.data\(\)\)", r"str_data(&\1)", None),
+        Sub(r"\b(\w+)\[([^\]]+)\] = (str_data\([^;]*\)|nullptr);", lambda m: "argv_set(%s, %s, %s);" % (m.group(1), m.group(2), "cptr_null()" if m.group(3) == "nullptr" else m.group(3)), None),
+        Sub(r"\bstd::string::npos\b", "NPOS", None),
+        Sub(r"\breturn f\(([^;]*), (\w+)\.data\(\)\);", r"return f_call(f, \1, vec_data(\2));", 1),
+    ], loops={1: LOOP_INITARGS, "count": 1})}, funcs=[IRT + ": pika::detail::init_helper"], min_obligations=8,
+    doc="I: main(argc, argv) of the application receives exactly the arguments that do not START with --pika: (and the values of "
+        "--pika:positional=), unchanged and in order, argv[argc] == nullptr"))
